@@ -437,6 +437,24 @@ def run_impl(c):
     bad = _oracle(root, vis, ret)
     if not bad:
         bad = _falsy_pass(root)
+    if not bad:
+        # "starting a visitor on any tree": the same visitor object started again (same tree, then once more) makes the
+        # same callbacks again — nothing an earlier start() left on the object may shorten a later traversal
+        first = [_show(r) for r in vis.log]
+        for again in (2, 3):
+            del vis.log[:]
+            try:
+                ret2 = vis.start(root)
+            except Exception as e:
+                bad = ('visitor-exception', 'start() number %d on the same visitor object raised %s: %s' % (again, type(e).__name__, e)); break
+            b2 = _oracle(root, vis, ret2)
+            if b2:
+                bad = (b2[0], 'start() number %d on the same visitor object: %s' % (again, b2[1])); break
+            if [_show(r) for r in vis.log] != first:
+                bad = ('not-exactly-once', 'start() number %d on the same visitor object made %d callbacks, the first start() made %d' % (again, len(vis.log), len(first))); break
+        else:
+            del vis.log[:]
+            vis.start(root)
     fail = {'kind': bad[0], 'detail': bad[1]} if bad else None
     unrep = _representable(root)
     sig = _sig(c, root, applied)
